@@ -68,10 +68,7 @@ func (c *Continuation) Deserialize(fr *FrameHeader) error {
 }
 
 func (c *Continuation) Serialize(fr *FrameHeader) {
-	if c.endHeaders {
-		fr.SetFlags(
-			fr.Flags().Add(FlagEndHeaders))
-	}
+	fr.SetFlags(fr.Flags().with(FlagEndHeaders, c.endHeaders))
 
 	fr.setPayload(c.rawHeaders)
 }
